@@ -21,4 +21,9 @@ def run() -> int:
     core.import_repo()
     os.makedirs(core.EVIDENCE, exist_ok=True)
     print(f"setup: {len(mods)} modules parsed, {bad} failures")
-    return 0 if bad == 0 else 2
+    if bad:
+        return 2
+    # the specification must agree with the RFC example tables before it judges anything
+    from . import selftest  # noqa: PLC0415
+
+    return selftest.run("quick")
